@@ -413,6 +413,9 @@ func NewManager(
 	// initialize da included height
 	if height, err := m.store.GetMetadata(ctx, storepkg.DAIncludedHeightKey); err == nil && len(height) == 8 {
 		m.daIncludedHeight.Store(binary.LittleEndian.Uint64(height))
+	} else if genesis.InitialHeight > 1 {
+		// no block exists below the initial height: the includer starts just below it
+		m.daIncludedHeight.Store(genesis.InitialHeight - 1)
 	}
 
 	// Set the default publishBlock implementation
